@@ -71,8 +71,7 @@ theorem eval_cellwise (env : Env) (n : List Nat) (hwf : ∀ f ∈ env.fields, CF
 example : evalOk exEnv exTree = true := by decide +kernel
 example : LiftOk [2] exTree := by simp [exTree, LiftOk]
 
-/-- validity of every cell of the result is `validCell`: the AND of the operands' masks
-along the operator paths, all `True` behind the ufunc protocol -/
+/-- validity of every cell of the result is `validCell`: the AND of the operands' masks -/
 theorem eval_valid (env : Env) (n : List Nat) (hwf : ∀ f ∈ env.fields, CFwf f ∧ f.mesh.n = n)
     (e : Expr) (hok : LiftOk n e) (g : CF) (h : evalF env e = .ok (.fld g)) :
     ∀ i, inRange n i = true → g.valid.get i = validCell env e i := by
@@ -86,25 +85,17 @@ def leafValid (env : Env) (i : List Nat) (k : Nat) : Bool :=
   | some f => f.valid.get i
   | none => true
 
-/-- for programs that never go through the ufunc protocol the validity of a cell is the
-AND over **all field leaves** of the expression -/
-theorem valid_is_and_of_leaves (env : Env) (e : Expr) (i : List Nat) (hu : e.usesUfunc = false) :
+/-- the validity of a cell of the result is the AND over **all field leaves** of the
+expression (operators, reflected operators and — since the repair of D22 — ufuncs alike) -/
+theorem valid_is_and_of_leaves (env : Env) (e : Expr) (i : List Nat) :
     validCell env e i = e.leaves.all (leafValid env i) := by
   induction e with
   | leaf k => cases hk : env.fields[k]? <;> simp [validCell, Expr.leaves, leafValid, hk]
   | opd o => simp [validCell, Expr.leaves]
-  | un u e ih =>
-    simp only [Expr.usesUfunc, Bool.or_eq_false_iff] at hu
-    simp only [validCell, hu.1, Expr.leaves]
-    exact ih hu.2
-  | bin b l r ihl ihr =>
-    simp only [Expr.usesUfunc, Bool.or_eq_false_iff] at hu
-    obtain ⟨⟨⟨h1, h2⟩, h3⟩, h4⟩ := hu
-    simp only [validCell, h1, h2, Expr.leaves, List.all_append, ihl h3, ihr h4]
-    simp
+  | un u e ih => simp only [validCell, Expr.leaves]; exact ih
+  | bin b l r ihl ihr => simp only [validCell, Expr.leaves, List.all_append, ihl, ihr]
 
-example : exTree.usesUfunc = true := by decide
-example : (Expr.bin .mul (.leaf 0) (.bin .add (.leaf 1) (.opd exVec))).usesUfunc = false := by decide
+example : exTree.leaves = [0, 1, 0] := by decide
 
 /-- **the result lives on the mesh of its operands**: the mesh of the result is the mesh of
 the leftmost field leaf -/
@@ -142,14 +133,13 @@ theorem scalar_field_broadcasts (fn : GQ → GQ → GQ) (x : GQ) (ys : List GQ) 
 /-! ## `a ∘ b` and `b ∘ a` -/
 
 /-- **values and validity commute** (`∘ ∈ {+, *}`): if both orders are accepted, every cell
-of `a∘b` equals the cell of `b∘a`; so does the validity unless one operand is a NumPy
-object on the left (which goes through `__array_ufunc__`, known finding D22). -/
+of `a∘b` equals the cell of `b∘a`, and so does its validity — whichever of the forward,
+reflected or `__array_ufunc__` paths the operand types select. -/
 theorem comm_values (env : Env) (n : List Nat) (hwf : ∀ f ∈ env.fields, CFwf f ∧ f.mesh.n = n)
     (b : BinOp) (hb : b = .add ∨ b = .mul) (x y : Expr) (hx : LiftOk n x) (hy : LiftOk n y) (g1 g2 : CF)
     (h1 : evalF env (.bin b x y) = .ok (.fld g1)) (h2 : evalF env (.bin b y x) = .ok (.fld g2)) :
     ∀ i, inRange n i = true →
-      cellOf g1.data i g1.nvdim = cellOf g2.data i g2.nvdim ∧
-      (npLeft x = false → npLeft y = false → g1.valid.get i = g2.valid.get i) := by
+      cellOf g1.data i g1.nvdim = cellOf g2.data i g2.nvdim ∧ g1.valid.get i = g2.valid.get i := by
   have hok1 : LiftOk n (.bin b x y) := ⟨hx, hy, by rcases hb with rfl | rfl <;> simp⟩
   have hok2 : LiftOk n (.bin b y x) := ⟨hy, hx, by rcases hb with rfl | rfl <;> simp⟩
   obtain ⟨_, _, hc1⟩ := eval_cellwise env n hwf _ hok1 g1 h1
@@ -176,10 +166,8 @@ theorem comm_values (env : Env) (n : List Nat) (hwf : ∀ f ∈ env.fields, CFwf
         rcases hb with rfl | rfl
         · exact bz_comm GQ.add GQ.add_comm' _ _ (hcompat i hi)
         · exact bz_comm GQ.mul GQ.mul_comm' _ _ (hcompat i hi)
-      · intro hnx hny
-        rw [hv1 i hi, hv2 i hi]
-        have hub : isUfuncBin b = false := by rcases hb with rfl | rfl <;> rfl
-        simp only [validCell, hub, hnx, hny, Bool.or_false, Bool.false_eq_true, if_false]
+      · rw [hv1 i hi, hv2 i hi]
+        simp only [validCell]
         exact Bool.and_comm _ _
 
 example : evalOk exEnv (.bin .add (.leaf 0) (.leaf 1)) = true ∧ evalOk exEnv (.bin .add (.leaf 1) (.leaf 0)) = true := by
@@ -350,28 +338,32 @@ theorem cross_needs_three (f o : CF) (h : f.nvdim ≠ 3 ∨ o.nvdim ≠ 3) : ∃
   | error e => exact ⟨e, rfl⟩
   | ok u => exact ⟨.value, by simp [h]⟩
 
-/-- **the ufunc protocol never looks at the second field's mesh** (new finding D21): a
-binary ufunc on two fields returns the same result whatever mesh the second field lives
-on — fields on different meshes with equal cell counts are *not* refused -/
-theorem ufunc_ignores_mesh (fn : GQ → GQ → GQ) (pw : Bool) (f o : CF) (M : Mesh) :
-    ufunc2 fn pw (.fld f) (.fld { o with mesh := M }) = ufunc2 fn pw (.fld f) (.fld o) := by
-  rfl
+/-- **binary ufuncs refuse fields on different meshes too** (repaired defect D23):
+`np.add(f, g)`, `np.maximum(f, g)`, … are an error when `Mesh.allclose` does not hold -/
+theorem mismatch_rejected_mesh_ufunc (fn : GQ → GQ → GQ) (pw : Bool) (f o : CF)
+    (hm : meshAllclose f.mesh o.mesh ≠ .ok true) : ∃ e, ufunc2 fn pw (.fld f) (.fld o) = .error e := by
+  unfold ufunc2
+  simp only [firstFld, ufuncInput]
+  cases h1 : ufuncMeshOk f (.fld f) with
+  | error e => exact ⟨e, rfl⟩
+  | ok u =>
+    simp only
+    have : ∃ e, ufuncMeshOk f (.fld o) = .error e := by
+      simp only [ufuncMeshOk]
+      cases hmm : meshAllclose f.mesh o.mesh with
+      | error e => exact ⟨e, rfl⟩
+      | ok t =>
+        cases t with
+        | false => exact ⟨_, rfl⟩
+        | true => exact absurd hmm hm
+    obtain ⟨e, he⟩ := this
+    exact ⟨e, by rw [he]⟩
 
-example : evalOk exEnv (.bin .uadd (.leaf 0) (.leaf 2)) = true ∧ evalOk exEnv (.bin .add (.leaf 0) (.leaf 2)) = false := by
+example : evalOk exEnv (.bin .uadd (.leaf 0) (.leaf 2)) = false ∧ evalOk exEnv (.bin .add (.leaf 0) (.leaf 2)) = false ∧
+    evalOk exEnv (.bin .uadd (.leaf 0) (.leaf 1)) = true := by
   decide +kernel
 
-/-- results of the ufunc protocol are valid everywhere: `__array_ufunc__` does not hand
-`valid` to the constructor (finding D22 when it makes `ndarray * f` differ from `f * ndarray`) -/
-theorem ufunc_result_all_valid (env : Env) (n : List Nat) (hwf : ∀ f ∈ env.fields, CFwf f ∧ f.mesh.n = n)
-    (b : BinOp) (l r : Expr) (hok : LiftOk n (.bin b l r)) (hb : isUfuncBin b = true ∨ npLeft l = true)
-    (g : CF) (h : evalF env (.bin b l r) = .ok (.fld g)) :
-    ∀ i, inRange n i = true → g.valid.get i = true := by
-  intro i hi
-  rw [eval_valid env n hwf _ hok g h i hi]
-  simp only [validCell]
-  rcases hb with hb | hb <;> simp [hb]
-
-example : evalOk exEnv (.bin .mul (.opd exNpVec) (.leaf 0)) = true ∧ npLeft (.opd exNpVec) = true := by decide +kernel
+example : evalOk exEnv (.bin .mul (.opd exNpVec) (.leaf 0)) = true := by decide +kernel
 
 /-! ## labels, mapping and unit through the unary operations -/
 
